@@ -242,6 +242,16 @@ def one_case(ctx: Ctx, stream: str, i: int, forced=None) -> None:
         else:
             ctx.fail(stream, i, f'reduce-raises:{label}', f'reduce() of {label} raised {st5}', {'kind': kind})
         ctx.case(f'factory:{label}:{kind}:{a1.tolist()}', True, sample=None)
+    # the operator is a function of its `angles` leaf: replacing that leaf by a pytree operation gives the rotation by the
+    # new angles (nothing derived from the old angles may survive inside the object)
+    import equinox
+    st7, swapped = safe(lambda: equinox.tree_at(lambda o: o.angles, R1, jnp.asarray(np.broadcast_to(a2_orig, np.shape(a1_orig) or np.shape(a2_orig)))
+                                                if np.shape(a1_orig) == np.shape(a2_orig) else jnp.asarray(a2_orig)))
+    if st7 == 'ok' and np.shape(a1_orig) == np.shape(a2_orig):
+        expect(swapped, rot2, 'R:angles-leaf-replaced')
+        st8, swT = safe(lambda: swapped.T)
+        if st8 == 'ok':
+            expect(swT, [m.T for m in rot2], 'R.T:angles-leaf-replaced')
     if not (np.array_equal(a1, a1_orig) and np.array_equal(a2, a2_orig)):
         ctx.fail(stream, i, 'caller-angles-modified', 'the angle array passed by the caller was written to',
                  {'kind': kind, 'given': given, 'before': a1_orig.tolist(), 'after': a1.tolist()})
